@@ -169,8 +169,9 @@ Definition step (s : dstate) (sw : sync) (frame : list Z) (cbret : bool) : outco
   | SBert => decode_bert (with_mode s MBert) fr
   end.
 
-(** reset(): state_ = LSF; frame_number = 0 -- lich_segments and the buffers are NOT cleared *)
-Definition reset (s : dstate) : dstate := with_mode s MLsf.
+(** reset(): state_ = LSF; frame_number = 0; lich_segments = 0; output_buffer.lsf.fill(0)
+    (the last two since fix eacdcde "reset() forgets the LICH fragments"); the other buffers are NOT cleared *)
+Definition reset (s : dstate) : dstate := mkst MLsf 0 (repeat 0 30) (d_hid s).
 
 Definition st_of (o : outcome) : dstate := fst (fst (fst o)).
 Definition res_of (o : outcome) : result := snd (fst (fst o)).
